@@ -215,6 +215,36 @@ PROPS['C22'] = {
     ],
 }
 
+SOLVER_FNS = ['solution_node.rs::next_solution', 'solution_node_and_or.rs::next_solution_and', 'solution_node_and_or.rs::next_solution_or',
+              'solution_node.rs::get_goal', 'solution_node.rs::no_backtracking']
+PROPS['C05'] = {
+    'units': ['solver'],
+    'functions': SOLVER_FNS,
+    'oracles': {'*': 'c05_reask'},
+    'bounded': [('c05_reask', 'supplementary to the proof, and the source of witnesses: 26 queries (facts, rules, and / or, not, nested not, cut, time, print, comparison, count) over one program, asked through next_solution() and through solve() '
+                              'until "no more" is reported, then asked four more times: no answer and no output may follow')],
+    'not_covered': [
+        'PROVED (Verus, verbatim bodies of next_solution / next_solution_and / next_solution_or over the ghost node heap of spec/solver.rs, rule R15): a node that returns None is left in a state (`local_done`) from which every later request returns None, '
+        'calls no predicate of the knowledge base and writes nothing - for complex goals, and / or, not, time and built-in predicates, whatever the knowledge base, the bindings and the results of unification; the invariant is kept by every request, also by those that answer. '
+        'Partial correctness: the search need not terminate; the statement is about requests that return',
+        'RELATIVE TO the heap model of Rc<RefCell<SolutionNode>> (T8) and to ASSUMED contracts of two functions that are not under proof in this unit: next_solution_bip (a built-in predicate tests and clears `more_solutions` first - its first two statements - and the cut writes only no_backtracking flags) and make_solution_node (a fresh node below its parent, existing nodes untouched)',
+        'solve() / solve_all(): that "No more." is returned exactly when next_solution returned None and the query was not stopped is read from their 20 lines, not proved (unit solutions proves the timer discipline only); the bounded oracle asks through solve() as well',
+        'unify, get_rule, Rule::get_head/get_body, Goal::key, get_var_id/set_var_id are ABSTRACT in this unit (signature only, arbitrary results): the clauses hold for every behaviour of theirs that returns; their own panics are outside (C06, C10, C18 cover them under their preconditions)',
+    ],
+}
+PROPS['C03'] = {
+    'units': ['solver'],
+    'functions': SOLVER_FNS,
+    'oracles': {'*': 'c03_not'},
+    'bounded': [('c03_not', 'supplementary to the proof: 16 goals G under 5 prior bindings: `pre, not(G)` has exactly one answer when `pre, G` has none and none otherwise, the answer shows exactly the bindings made before not(), the goal after not() runs, and asking again after exhaustion gives nothing')],
+    'not_covered': [
+        'PROVED on the verbatim Not branch of next_solution (node heap, R15): not(G) answers with the bindings the node was created with (Rc::clone of its own substitution set - G\'s bindings cannot be visible); it answers exactly when the request to G\'s node returned None (ghost record at the call site, clause #not_iff); '
+        'once asked it is spent (more_solutions cleared on every path), so it succeeds at most once and a later request returns None without touching G',
+        'that G\'s node was created with the bindings current at the time (make_solution_node gives the head node the same substitution set) is part of the ASSUMED contract of make_solution_node; "G has no answer" is identified with "the first request to G\'s node returns None"',
+        'RELATIVE TO the heap model (T8); partial correctness (G may not terminate)',
+    ],
+}
+
 LEVEL = {p: 'proof' for p in PROPS}
 LEVEL['C22'] = 'proof'
 
@@ -223,6 +253,7 @@ TRUSTED_TEXT = {
     'T1': "rustc's derived PartialEq/Clone on the extracted types behave as spec `ueq` / identity (assume_specification + PartialEqSpecImpl)",
     'T2': 'vstd specifications of Vec, Rc, Box, Option, String, slices; axioms added where vstd has none are listed individually',
     'T3': 'assumed specifications for std string/char primitives (listed individually)',
-    'T4': 'extractor rewrite rules R1-R14 (syntactic; counts per rule reported in coverage.rewrites)',
+    'T4': 'extractor rewrite rules R1-R15 (syntactic; counts per rule reported in coverage.rewrites)',
     'T5': 'Verus 0.2026.09.13 + its Z3; rustc front end',
+    'T8': 'the node heap (spec/solver.rs): Rc<RefCell<SolutionNode>> accesses as accessor calls on one ghost heap passed along (R15); Rc::clone keeps identity; a field access through a RefMut touches that field of that node only; the raw-pointer writes of set_no_backtracking set no_backtracking flags only',
 }
